@@ -436,6 +436,11 @@ class Fold(ast.NodeTransformer):
             if f.id == 'len' and len(node.args) == 1 and not node.keywords and isinstance(node.args[0], (ast.Tuple, ast.List)) \
                     and not any(isinstance(x, ast.Starred) for x in node.args[0].elts) and all(_pure(x) for x in node.args[0].elts):
                 return self.hit(ast.Constant(value=len(node.args[0].elts)), node)
+            if f.id == 'dict' and len(node.args) == 1 and not node.keywords and isinstance(node.args[0], (ast.Tuple, ast.List)) and node.args[0].elts \
+                    and all(isinstance(e, (ast.Tuple, ast.List)) and len(e.elts) == 2 and _const_key(e.elts[0]) is not None for e in node.args[0].elts) \
+                    and len({_const_key(e.elts[0]) for e in node.args[0].elts}) == len(node.args[0].elts):
+                # dict((('a', x), ('b', y)))  ->  {'a': x, 'b': y}
+                return self.hit(ast.Dict(keys=[e.elts[0] for e in node.args[0].elts], values=[e.elts[1] for e in node.args[0].elts]), node)
             if f.id == 'dict' and not node.args and node.keywords:
                 return self.hit(ast.Dict(keys=[ast.Constant(value=k.arg) for k in node.keywords], values=[k.value for k in node.keywords]), node)
             if f.id == 'getattr' and len(node.args) == 2 and not node.keywords and isinstance(node.args[1], ast.Constant) and isinstance(node.args[1].value, str) \
